@@ -272,7 +272,7 @@ func (y *yielder) mark(n ast.Node) {
 }
 
 func (y *yielder) at(k byte, v string, p token.Position) { y.out = append(y.out, ytok{k, v, true, p}) }
-func (y *yielder) free(k byte, v string)                  { y.out = append(y.out, ytok{k: k, v: v}) }
+func (y *yielder) free(k byte, v string)                 { y.out = append(y.out, ytok{k: k, v: v}) }
 func (y *yielder) name(n *ast.Name) {
 	y.mark(n)
 	y.at('n', n.Name, n.NamePosition)
